@@ -50,7 +50,7 @@ def plan(tier, seed):
 def mandatory(tier):
     out = [f"axes/{a}->{b}" for a, b in itertools.product(AXES, AXES)]
     out += [f"warp/{a}" for a in AXES] + [f"sample/{a}" for a in AXES] + [f"exp/{a}" for a in AXES]
-    out += [f"sample_same_domain/{h}" for h in ("downsample", "upsample", "resize", "flip_align_corners")] + ["shared_grid", "per_field_grids", "per_field_grids/same_spacing_other_orientation", "FlowField", "sitk", "helpers"]
+    out += [f"sample_same_domain/{h}" for h in ("downsample", "upsample", "resize", "flip_align_corners")] + ["shared_grid", "per_field_grids", "per_field_grids/same_spacing_other_orientation", "FlowField", "sitk", "helpers", "transform_flow/own", "transform_flow/flag_flipped", "transform_flow/same_domain_resized"]
     return out
 
 
@@ -255,6 +255,36 @@ def run_item(ctx, item):
         smag = max(float(np.abs(s_).max()) for s_ in sm) + 1e-9
         for a in (GRID, WORLD, CORNERS):
             ctx.close("exp_world_result_independent_of_representation", results[a], results[CUBE], 2e-2 * smag, key=f"exp/{a}", axes=a)
+    # ---------------- 4b. the flow field a dense transform reports on a grid: same world displacement whichever flag
+    #                     the requested grid carries
+    with ctx.guard("SpatialTransform.flow", key="exc/transform_flow"):
+        from deepali import spatial as S
+
+        ref0, g0 = refs[0], grids[0]
+        own = CORNERS if g0.align_corners() else CUBE
+        tr = S.DisplacementFieldTransform(g0, params=torch.tensor(to_axes(ref0, fields_w[0], own)[None], dtype=torch.float32))
+        tr.update()
+        for how in ("own", "flag_flipped", "same_domain_resized"):
+            if how == "own":
+                gt = g0
+            elif how == "flag_flipped":
+                gt = g0.align_corners(not g0.align_corners())
+            else:
+                gt = g0.resize(tuple(int(k) + 1 for k in g0.size()))
+            with torch.no_grad():
+                fl = tr.flow(gt)
+            reft = gen.ref_of_grid(gt)
+            wt = world_positions(reft)
+            extt = float(np.linalg.norm(ref0.s * ref0.n))
+            want_w = np.moveaxis(((wt - ref0.c) @ (A[0] * 0.6).T / extt + 0.3 * t[0]) * float(ref0.s.mean()), -1, 0)
+            ok = ctx.true("transform_flow_is_on_requested_grid", fl.grid() == gt and fl.grid().align_corners() == gt.align_corners() and fl.axes() is Axes.from_grid(gt), key=f"transform_flow/{how}/grid", got=[repr(fl.grid()), str(fl.axes())])
+            got_w = fl.axes(Axes.WORLD).tensor()[0].double().numpy()
+            # linear interpolation of a world-affine field is exact inside the source sample hull
+            io = ref0.points(wt, WORLD, GRID)
+            inside = ((io >= 0) & (io <= ref0.n - 1)).all(axis=-1)
+            if inside.any():
+                ctx.close("transform_flow_world_vectors", got_w[:, inside], want_w[:, inside], tol, key=f"transform_flow/{how}", how=how, own_flag=g0.align_corners())
+                ctx.bucket(f"transform_flow/{how}")
     # ---------------- 5. SimpleITK conversion: world vectors
     with ctx.guard("FlowField.sitk"):
         ctx.bucket("sitk")
